@@ -184,3 +184,16 @@ def op_freeze(c):
         return out
     except Exception as e:
         return errobs(e)
+
+
+def op_exc_render(c):
+    """the 'ExceptionTable:' section a listing shows for a 3.11+ portable code object with this table"""
+    from xdis.bytecode import Bytecode
+    from xdis.cross_dis import format_exception_table
+    try:
+        code = _code311(1, [], c["tab"])
+        b = Bytecode(code, _opc(c["version"]))
+        text = format_exception_table(b, tuple(c["version"]))
+    except Exception as e:
+        return errobs(e)
+    return [0] + [ord(ch) for ch in text]
